@@ -22,6 +22,7 @@ var c15FirstUse = []prog{
 	{"first-create-keys", "Ca|K"},
 	{"first-delete-begin-set", "Da|b01.s0a.c0|Sb"},
 	{"two-roots-set-set", "I:Sc|Sa|Sb;r=2"},
+	{"cleanup-of-rotated-out-dir-vs-set", "I:Sz|X|Sb;seed=full;w=2"},
 	{"two-roots-create-set-two-workers", "I:Sc|Ca|Sb.Ga;r=2;w=2"},
 }
 
